@@ -8,22 +8,29 @@
 EXTENDS Naturals, Sequences, TLC, Json
 CONSTANTS MaxLen
 
-Dialects == {"z80", "8051", "c25", "c30"}
-GranOf(d) == CASE d = "z80" -> 1 [] d = "8051" -> 1 [] d = "c25" -> 2 [] d = "c30" -> 4
+Dialects == {"z80", "8051", "c25", "c30", "pic"}
+\* granularity (bytes per address unit) of a segment of a target.  "pic" (PIC 16C877) is the mixed case: the CODE
+\* segment counts (14 bit in 16 bit) words, DATA counts bytes -- the record header must carry the granularity of the segment
+\* the record belongs to (asmcode.c WrRecHeader: Grans[ActPC]), not that of the code segment.
+GranOfSeg(d, s) == CASE d = "z80" -> 1 [] d = "8051" -> 1 [] d = "c25" -> 2 [] d = "c30" -> 4
+                     [] d = "pic" -> IF s = "code" THEN 2 ELSE 1
 SegsOf(d) == CASE d = "z80" -> {"code"} [] d = "8051" -> {"code", "xdata"} [] d = "c25" -> {"code", "data"}
-               [] d = "c30" -> {"code"}
-Limit(d) == IF d = "c30" THEN 1000000 ELSE 65536
+               [] d = "c30" -> {"code"} [] d = "pic" -> {"code", "data"}
+LimitSeg(d, s) == IF d = "c30" THEN 1000000 ELSE IF d = "pic" THEN (IF s = "code" THEN 8191 ELSE 511) ELSE 65536
 \* chunk sizes in units: around 1, the buffer size in bytes (512) for each granularity, and two buffers
 \* (the TI data pseudo-ops of the pinned tree overflowed their 256-byte code buffer with more than 128 resp. 64
 \*  arguments -- found by this generator, repaired as a C03 fix -- so the long forms are exercised on purpose)
-Sizes(d) == CASE GranOf(d) = 1 -> {1, 2, 3, 254, 255, 256, 257, 258, 300, 400, 450}
-              [] GranOf(d) = 2 -> {1, 2, 3, 126, 127, 128, 129, 255, 256, 257, 300}
-              [] GranOf(d) = 4 -> {1, 2, 3, 62, 63, 64, 65, 127, 128, 129, 300}
+SizesG(g) == CASE g = 1 -> {1, 2, 3, 254, 255, 256, 257, 258, 300, 400, 450}
+              [] g = 2 -> {1, 2, 3, 126, 127, 128, 129, 255, 256, 257, 300}
+              [] g = 4 -> {1, 2, 3, 62, 63, 64, 65, 127, 128, 129, 300}
 
 VARIABLES dial, act, pc, hist
 vars == <<dial, act, pc, hist>>
 
 AllSegs == {"code", "data", "xdata"}
+GranOf(d) == GranOfSeg(d, act)
+Limit(d) == LimitSeg(d, act)
+Sizes(d) == SizesG(GranOfSeg(d, act))
 Init == /\ dial \in Dialects /\ act = "code" /\ pc = [s \in AllSegs |-> 0] /\ hist = <<>>
 
 Rec(a, f) == [a |-> a, dial |-> dial', seg |-> act', addr |-> pc[act]] @@ f
@@ -45,7 +52,7 @@ Segment(s) == /\ s \in SegsOf(dial) /\ s # act
               /\ hist' = Append(hist, [a |-> "SEGMENT", dial |-> dial, seg |-> s, addr |-> pc[s]])
               /\ UNCHANGED <<dial, pc>>
 \* CPU switch keeps the counters (units); only allowed while in the code segment so that every dialect has it
-Cpu(d) == /\ d # dial /\ act = "code" /\ pc["code"] < Limit(d)
+Cpu(d) == /\ d # dial /\ act = "code" /\ pc["code"] < LimitSeg(d, "code")
           /\ dial' = d
           /\ hist' = Append(hist, [a |-> "CPU", dial |-> d, seg |-> act, addr |-> pc[act]])
           /\ UNCHANGED <<act, pc>>
